@@ -104,7 +104,7 @@ func C04(r *drv.Run) {
 	}
 	variants := amountVariants()
 	longV := longVariants()
-	r.Rule = fmt.Sprintf("bodies B from the core generator (alphabet {a,b}: occurrences overlap, lazy and bounded loops) plus fixed overlapping bodies, 24 bodies that open with one of the six anchors plain or negated, two bodies whose captures only some matches bind (replace commands list every capture of the body in their with-list) and four bodies whose named loops capture, are back-referenced from inside and outside, or reuse the name of an earlier capture; per (B, text) the `all` result A and %d amount clauses (top/take n, skip s, last n for n,s in 0..5, skip s take t for s,t in 0..4 - straddling len(A); a few spelled with leading zeros) as find and as replace commands; plus 6 fixed bodies (three of them over multi-byte characters, consumed in one piece and byte by byte) on texts with 14..20 matches under %d clauses with amounts 7..13, each number also spelled with one and two leading zeros (still decimal), and with amounts 100..301 (around 128 and 256) against a text with 300 matches. The capture shapes of C02 (eight literal choices each) and two loop-capture-then-back-reference bodies under seven clauses on all texts over {a,b} up to length 4: what was bound on an abandoned path of an attempt before the window does not let a non-match through. Replace commands whose with-list names one built-in of the replacer each (value, matchNumber, startOffset, endOffset, lineNumber, columnNumber, totalMatches, filename) under every clause: the window is the stated one whatever the replacement reads (the replacement text is compared too, except for totalMatches). Replace commands whose with-list holds only strings and captures over five bodies that capture the same text under different names depending on where it stands (an anchor inside one alternative): every match of every window carries the replacement made of its own captures. Result lists of 300 007 matches (thorough: also 2^21 + 3), find and replace, seven clauses with amounts next to both ends of the list, compared inside the worker match by match (op bigwindows). Oracle: each clause's result must deep-equal (every field, incl. MatchNumber, variables, replacement) the stated slice of A; A itself is checked against the reference matcher. Non-trivial = len(A) >= 2 and the clause cuts A properly (0 < window < len(A)); distinct by (B, text, clause).", len(variants), len(longV))
+	r.Rule = fmt.Sprintf("bodies B from the core generator (alphabet {a,b}: occurrences overlap, lazy and bounded loops) plus fixed overlapping bodies, 24 bodies that open with one of the six anchors plain or negated, two bodies whose captures only some matches bind (replace commands list every capture of the body in their with-list) and four bodies whose named loops capture, are back-referenced from inside and outside, or reuse the name of an earlier capture; per (B, text) the `all` result A and %d amount clauses (top/take n, skip s, last n for n,s in 0..5, skip s take t for s,t in 0..4 - straddling len(A); a few spelled with leading zeros) as find and as replace commands; plus 6 fixed bodies (three of them over multi-byte characters, consumed in one piece and byte by byte) on texts with 14..20 matches under %d clauses with amounts 7..13, each number also spelled with one and two leading zeros (still decimal), and with amounts 100..301 (around 128 and 256) against a text with 300 matches. The capture shapes of C02 (eight literal choices each) and two loop-capture-then-back-reference bodies under seven clauses on all texts over {a,b} up to length 4: what was bound on an abandoned path of an attempt before the window does not let a non-match through. Replace commands whose with-list names one built-in of the replacer each (value, matchNumber, startOffset, endOffset, lineNumber, columnNumber, totalMatches, filename) under every clause: the window is the stated one whatever the replacement reads (the replacement text is compared too, except for totalMatches). Replace commands whose with-list holds only strings and captures over five bodies that capture the same text under different names depending on where it stands (an anchor inside one alternative): every match of every window carries the replacement made of its own captures. One RunFiles call over four files (by name and as a directory argument) under every clause, find and replace: every file gets the stated window of its own matches, the fourth as the first. Result lists of 300 007 matches (thorough: also 2^21 + 3), find and replace, seven clauses with amounts next to both ends of the list, compared inside the worker match by match (op bigwindows). Oracle: each clause's result must deep-equal (every field, incl. MatchNumber, variables, replacement) the stated slice of A; A itself is checked against the reference matcher. Non-trivial = len(A) >= 2 and the clause cuts A properly (0 < window < len(A)); distinct by (B, text, clause).", len(variants), len(longV))
 	r.Assumptions = []string{"`last n` only for n >= 1 (the property's range)", "A itself judged by the C01 reference so the relation cannot hold vacuously on a wrong A"}
 	fixed := [][]gen.Node{
 		{gen.Lit{S: "aa"}},
@@ -305,6 +305,7 @@ func C04(r *drv.Run) {
 	c04Captures(r)
 	c04Builtins(r)
 	c04CaptureLists(r)
+	c04Files(r)
 	c04Big(r)
 	if r.NViolations() == 0 {
 		expensiveFloor(r)
